@@ -2,7 +2,7 @@
 Engine: nprobe depfile (real DepfileParser under ASan/UBSan).
 Oracle: round trip through an independent encoder of the GCC / Clang Makefile dialects."""
 
-MANIFEST = {'engine': 'nprobe', 'category': 'exploration', 'technique': 'runtime monitoring: round-trip oracle (independent GCC/Clang depfile encoder -> real DepfileParser under ASan/UBSan), exhaustive short names + random lists, minimal-n-gram attribution', 'text': 'Names are encoded the way GCC (mkdeps munge) and Clang (PrintFilename) write them, laid out in 8 layouts x LF/CRLF, parsed by the real DepfileParser and compared name by name. Exhaustive over names of <=3 (quick) / <=4 (thorough) symbols of the escape alphabet in every position; random lists over printable ASCII + high bytes. Each failing name is reduced to the minimal byte sequence (n<=3) that fails on its own, so one known bad byte cannot mask another defect.', 'note': "Trusted: the encoder in vlib/checks/c15.py (follows the two compilers' source), the domain rules (names ending in backslash/colon, NUL/newline/tab are not expressible). Known findings: 8 byte sequences (see known_findings.txt).", 'ref': 'DESIGN.md §5 C15'}
+MANIFEST = {'engine': 'nprobe', 'category': 'exploration', 'technique': 'runtime monitoring: round-trip oracle (independent GCC/Clang depfile encoder -> real DepfileParser under ASan/UBSan), exhaustive short names + random lists, minimal-n-gram attribution', 'text': 'Names are encoded the way GCC (mkdeps munge) and Clang (PrintFilename) write them, laid out in 8 layouts x LF/CRLF, parsed by the real DepfileParser and compared name by name. Exhaustive over names of <=3 (quick) / <=4 (thorough) symbols of the escape alphabet in every position; random lists over printable ASCII + high bytes. Each failing name is reduced to the minimal byte sequence (n<=3) that fails on its own, so one known bad byte cannot mask another defect. Through the real binary: a deps = gcc statement whose command drops such a depfile (names also spelled ./x, sub/../x, a//b as include paths make compilers spell them); ninja -t deps must list exactly the (canonical) names.', 'note': "Trusted: the encoder in vlib/checks/c15.py (follows the two compilers' source), the domain rules (names ending in backslash/colon, NUL/newline/tab are not expressible). Known findings: 8 byte sequences (see known_findings.txt).", 'ref': 'DESIGN.md §5 C15'}
 
 import os, itertools, random
 from .. import build, util, core
